@@ -1245,6 +1245,357 @@ def accumulate_loop(tr, stmts, loop, accs):
     return {acc: build(acc) for acc in accs}
 
 
+# ----------------------------------------------------------------------------- fourth wave: NumPy idioms of loops and cascades
+PY4_PRELUDE = (
+    '/-! Readings of the NumPy / Python primitives met by the fourth wave of fragments (`S4…` definitions). Core Lean only. -/\n'
+    'namespace Py4\n'
+    '/-- NumPy / Python indexing `a[i]` with a possibly negative index (`-1` = last entry); `d` outside the range -/\n'
+    'def getI {β : Type} (a : List β) (i : Int) (d : β) : β :=\n'
+    '  if i < 0 then a.getD (a.length - i.natAbs) d else a.getD i.toNat d\n'
+    '/-- `np.argmax(v)` of a vector: the FIRST index holding the maximum (NumPy semantics, trusted); 0 on the empty vector -/\n'
+    'def argmaxAux {β : Type} [LT β] [DecidableLT β] : List β → Nat → Nat → β → Nat\n'
+    '  | [], _, bi, _ => bi\n'
+    '  | x :: xs, i, bi, bv => if bv < x then argmaxAux xs (i + 1) i x else argmaxAux xs (i + 1) bi bv\n'
+    'def argmax {β : Type} [LT β] [DecidableLT β] : List β → Nat\n  | [] => 0\n  | x :: xs => argmaxAux xs 1 0 x\n'
+    '/-- `a[i] = v` on a list (nothing outside the range) -/\n'
+    'def setI {β : Type} (a : List β) (i : Nat) (v : β) : List β := a.set i v\n'
+    '/-- `a[i] = v` with a possibly negative index -/\n'
+    'def updI {β : Type} (a : List β) (i : Int) (v : β) : List β :=\n'
+    '  if i < 0 then a.set (a.length - i.natAbs) v else a.set i.toNat v\n'
+    '/-- the last axis of `self.params` / `messages` of a binary Chow-Liu tree: the entries for the values 0 and 1 -/\n'
+    'def vec2 {β : Type} (f : Int → β) : List β := [f 0, f 1]\n'
+    '/-- element-wise `f(a, b, c)` of three index vectors (NumPy fancy indexing `t[a, b, c]`) -/\n'
+    'def zipWith3 {β γ δ ε : Type} (f : β → γ → δ → ε) : List β → List γ → List δ → List ε\n'
+    '  | a :: as, b :: bs, c :: cs => f a b c :: zipWith3 f as bs cs\n  | _, _, _ => []\n'
+    '/-- `torch.flatten(torch.stack([a, b], dim=2), start_dim=1)` on one row: the entries of `a` and `b` interleaved -/\n'
+    'def interleave {β : Type} : List β → List β → List β\n  | a :: as, b :: bs => a :: b :: interleave as bs\n  | _, _ => []\n'
+    '/-- `torch.gather(x, dim=1, index=idx)` on one row -/\n'
+    'def gather {β : Type} [Inhabited β] (x : List β) (idx : List Int) : List β := idx.map (fun j => getI x j default)\n'
+    '/-- `sum` of a vector in a carrier with `0` and `+` -/\n'
+    'def sum {β : Type} [Zero β] [Add β] : List β → β\n  | [] => 0\n  | x :: xs => x + sum xs\n'
+    'end Py4')
+
+
+class TrZ4(TrZ3):
+    """TrZ3 plus: `np.all(v)` / `np.any(v)` of a Boolean vector, enum members (`enums`: class name -> Lean type), negative
+    indexing `a[i]` of integer / item lists (`Py4.getI`), `a.copy()`."""
+
+    def __init__(self, env=None, syms=None, attrs=None, funcs=None, transparent=(), enums=None):
+        TrZ3.__init__(self, env, syms, attrs, funcs, transparent)
+        self.enums = dict(enums or {})
+
+    def child(self, **bind):
+        sub = TrZ4(self.env, None, self.attrs, self.funcs, self.transparent, self.enums)
+        sub.syms = self.syms
+        sub.env.update(bind)
+        return sub
+
+    def tr(self, e):
+        if ast.unparse(e).replace(' ', '') in self.syms:
+            return self.syms[ast.unparse(e).replace(' ', '')]
+        if isinstance(e, ast.Attribute) and isinstance(e.value, ast.Name) and e.value.id in self.enums:
+            ty, members = self.enums[e.value.id]
+            if e.attr not in members:
+                raise Untranslatable(f'{e.value.id}.{e.attr} is not a member of the enumeration')
+            return f'{ty}.{e.attr}', ('enum', ty)
+        if isinstance(e, ast.BinOp) and isinstance(e.op, (ast.Add, ast.Sub, ast.Mult, ast.Div)):
+            a, b = self.tr(e.left), self.tr(e.right)
+            if 'num' in (a[1], b[1]) and a[1] in ('num', 'int', 'item') and b[1] in ('num', 'int', 'item'):
+                return f'({self.as_num(a)} {BINOPS[type(e.op)]} {self.as_num(b)})', 'num'
+        if isinstance(e, ast.Compare) and len(e.ops) == 1 and isinstance(e.ops[0], (ast.Lt, ast.LtE, ast.Gt, ast.GtE)):
+            a, b = self.tr(e.left), self.tr(e.comparators[0])
+            if 'num' in (a[1], b[1]) and a[1] in ('num', 'int', 'item') and b[1] in ('num', 'int', 'item'):
+                x, y = self.as_num(a), self.as_num(b)
+                op = type(e.ops[0])
+                # only `<` and `≤` of the carrier are used: a > b is b < a
+                t = {ast.Lt: f'{x} < {y}', ast.LtE: f'{x} ≤ {y}', ast.Gt: f'{y} < {x}', ast.GtE: f'{y} ≤ {x}'}[op]
+                return f'(decide ({t}))', 'bool'
+        if isinstance(e, ast.Subscript) and not isinstance(e.slice, (ast.Slice, ast.Tuple, ast.Constant)):
+            base = self.tr(e.value)
+            if base[1] in (('list', 'item'), ('list', 'int')):
+                try:
+                    ix = self.tr(e.slice)
+                except Untranslatable:
+                    ix = None
+                if ix is not None and ix[1] in ('int', 'item'):      # a[k] with a computed, possibly negative, index
+                    return f'(Py4.getI {base[0]} {self.as_int(ix)} 0)', base[1][1]
+            elif isinstance(base[1], tuple) and base[1][0] == 'list' and isinstance(e.slice, ast.UnaryOp):
+                ix = self.tr(e.slice)                                 # xs[-k] on a list of objects: counted from the end
+                if ix[1] == 'int':
+                    return f'(Py4.getI {base[0]} {ix[0]} default)', base[1][1]
+        if isinstance(e, ast.Call):
+            nm = dotted_name(e.func) or ''
+            if nm in ('np.all', 'np.any', 'numpy.all', 'numpy.any') and len(e.args) == 1 and not e.keywords:
+                v = self.tr(e.args[0])
+                if v[1] != ('list', 'bool'):
+                    raise Untranslatable(f'{nm} of a value that is not a Boolean vector: ' + ast.unparse(e))
+                return f'({v[0]}.{nm.split(".")[-1]} (fun b => b))', 'bool'
+        return TrZ3.tr(self, e)
+
+    def as_num(self, tt):
+        """a value of the numeric carrier `W` (integers are cast: `[IntCast W]`)"""
+        if tt[1] == 'num':
+            return tt[0]
+        return f'(({self.as_int(tt)} : Int) : W)'
+
+    def cmp(self, op, a, b):
+        if isinstance(a[1], tuple) and a[1][0] == 'enum' and a[1] == b[1] and isinstance(op, (ast.Eq, ast.NotEq)):
+            return f'({a[0]} {"==" if isinstance(op, ast.Eq) else "!="} {b[0]})'
+        return TrZ3.cmp(self, op, a, b)
+
+
+def elif_chain(ifstmt):
+    """`if t1: b1 elif t2: b2 … else: bn` -> ([(t1, b1), (t2, b2), …], bn or [])"""
+    arms, cur = [], ifstmt
+    while True:
+        arms.append((cur.test, cur.body))
+        if len(cur.orelse) == 1 and isinstance(cur.orelse[0], ast.If):
+            cur = cur.orelse[0]
+        else:
+            return arms, cur.orelse
+
+
+def tuple_term(terms):
+    return terms[0] if len(terms) == 1 else '(' + ', '.join(terms) + ')'
+
+
+def tuple_proj(var, k, n):
+    """projection `k` (from 0) of a right-nested `n`-tuple held by `var`"""
+    if n == 1:
+        return var
+    return var + '.2' * k + ('.1' if k < n - 1 else '')
+
+
+RETURNED = ['<returned value>']     # `outs` of a function body: its value is what it returns
+
+
+class Exec4:
+    """statement-level reader: a block of Python statements as nested Lean `let`s whose value is the tuple of the final
+    values of the variables `outs`.  Understood: `name = e`, `obj.attr = e` (the attribute becomes a variable `obj_attr`),
+    `name op= e`, `xs.append(e)` / `xs.extend(e)` (list variables), `if … elif … else` (the variables assigned in a branch
+    are merged), `if c: …; continue` inside a loop body (the rest of the body is the else branch), `for v in xs:` (a
+    `foldl` over the variables the body assigns), `pass`, docstrings.  `stmt_hook(tr, stmt)` may translate a statement
+    itself: it returns None (not mine), or (list of (lean name, python key, term, type) bindings).  Everything else is
+    refused (Untranslatable naming the statement)."""
+
+    def __init__(self, what, stmt_hook=None, skip=None, ret_coerce=None):
+        self.what = what
+        self.stmt_hook = stmt_hook
+        self.skip = skip or (lambda st: False)
+        self.ret_coerce = ret_coerce or (lambda term, ty: (term, ty))
+
+    # -- environment handling: plain names live in tr.env, attribute / subscript keys in tr.syms
+    def bind(self, tr, key, lean, ty):
+        sub = tr.child()
+        sub.syms = dict(tr.syms)
+        if key.isidentifier():
+            sub.env[key] = (lean, ty)
+        else:
+            sub.syms[key.replace(' ', '')] = (lean, ty)
+        return sub
+
+    def lookup(self, tr, key):
+        k = key.replace(' ', '')
+        if k in tr.syms:
+            return tr.syms[k]
+        if key in tr.env:
+            return tr.env[key]
+        return None
+
+    @staticmethod
+    def lean_name(key):
+        return lid(key) if key.isidentifier() else lid(key.replace('.', '_').replace('[', '_').replace(']', '').replace(' ', ''))
+
+    def assigned(self, stmts):
+        """keys (names / attribute texts) assigned anywhere in `stmts`, in first-assignment order"""
+        res = []
+        def add(k):
+            if k not in res:
+                res.append(k)
+        def rec(ss):
+            for st in ss:
+                if isinstance(st, ast.Assign):
+                    for t in st.targets:
+                        for x in (t.elts if isinstance(t, ast.Tuple) else [t]):
+                            if isinstance(x, (ast.Name, ast.Attribute)):
+                                add(ast.unparse(x))
+                            elif isinstance(x, ast.Subscript):
+                                add(ast.unparse(x.value))
+                elif isinstance(st, ast.AugAssign):
+                    add(ast.unparse(st.target.value if isinstance(st.target, ast.Subscript) else st.target))
+                elif isinstance(st, ast.Expr) and isinstance(st.value, ast.Call) and isinstance(st.value.func, ast.Attribute) \
+                        and st.value.func.attr in ('append', 'extend', 'appendleft', 'pop', 'popleft', 'insert'):
+                    add(ast.unparse(st.value.func.value))
+                elif isinstance(st, ast.Delete):
+                    for t in st.targets:
+                        add(ast.unparse(t.value if isinstance(t, ast.Subscript) else t))
+                elif isinstance(st, ast.If):
+                    rec(st.body); rec(st.orelse)
+                elif isinstance(st, ast.For):
+                    rec(st.body)
+        rec(stmts)
+        return res
+
+    @staticmethod
+    def mentions(node, key):
+        return any(isinstance(n, (ast.Name, ast.Attribute)) and ast.unparse(n) == key for n in ast.walk(node))
+
+    def needed(self, key, body, rest, outs):
+        """is the value of `key` after a block `body` (None: not a loop) observable: returned in `outs`, mentioned by a later
+        statement, or (loop bodies) read by the next iteration before it is overwritten"""
+        if outs != RETURNED and key in outs:
+            return True
+        if any(self.mentions(st, key) for st in rest):
+            return True
+        for st in body or []:
+            if isinstance(st, ast.Assign) and len(st.targets) == 1 and ast.unparse(st.targets[0]) == key:
+                return self.mentions(st.value, key)
+            if self.mentions(st, key):
+                return True
+        return False
+
+    def final(self, tr, outs):
+        if outs == RETURNED:
+            raise Untranslatable(f'{self.what}: a path through the body does not end with a return')
+        vals = []
+        for k in outs:
+            v = self.lookup(tr, k)
+            if v is None:
+                raise Untranslatable(f'{self.what}: `{k}` has no value at the end of a block')
+            vals.append(v)
+        return tuple_term([t for t, _ in vals]), [ty for _, ty in vals]
+
+    def run(self, tr, stmts, outs, in_loop=False):
+        """-> (Lean text, types of `outs`)"""
+        if not stmts:
+            return self.final(tr, outs)
+        st, rest = stmts[0], stmts[1:]
+        if (isinstance(st, ast.Expr) and isinstance(st.value, ast.Constant)) or isinstance(st, ast.Pass) or self.skip(st):
+            return self.run(tr, rest, outs, in_loop)
+        if self.stmt_hook is not None:
+            r = self.stmt_hook(tr, st)
+            if r is not None:
+                text, sub = '', tr
+                for lean, key, term, ty in r:
+                    text += f'let {lean} := {term};\n  '
+                    sub = self.bind(sub, key, lean, ty)
+                body, tys = self.run(sub, rest, outs, in_loop)
+                return text + body, tys
+        if isinstance(st, ast.Continue) and in_loop and not rest:
+            return self.final(tr, outs)
+        if isinstance(st, ast.Return) and outs == RETURNED:
+            if st.value is None:
+                raise Untranslatable(f'{self.what}: bare return')
+            term, ty = self.ret_coerce(*tr.tr(st.value))
+            return term, [ty]
+        if isinstance(st, ast.If) and outs == RETURNED and not st.orelse and st.body and isinstance(st.body[-1], ast.Return):
+            c = tr.as_bool(tr.tr(st.test))
+            a, ta = self.run(tr, st.body, outs, in_loop)
+            b, tb = self.run(tr, rest, outs, in_loop)
+            if ta != tb:
+                raise Untranslatable(f'{self.what}: the two exits around `if {ast.unparse(st.test)}` return values of different kinds {ta} / {tb}')
+            return f'if {c} then\n  ({a})\n  else\n  ({b})', ta
+        if isinstance(st, (ast.Assign, ast.AnnAssign)) and (isinstance(st, ast.AnnAssign) or len(st.targets) == 1):
+            tgt = st.target if isinstance(st, ast.AnnAssign) else st.targets[0]
+            if isinstance(tgt, (ast.Name, ast.Attribute)) and st.value is not None:
+                key = ast.unparse(tgt)
+                term, ty = tr.tr(st.value)
+                lean = self.lean_name(key)
+                body, tys = self.run(self.bind(tr, key, lean, ty), rest, outs, in_loop)
+                return f'let {lean} := {term};\n  {body}', tys
+            if isinstance(tgt, ast.Tuple) and isinstance(st.value, ast.Tuple) and len(tgt.elts) == len(st.value.elts) \
+                    and all(isinstance(x, (ast.Name, ast.Attribute)) for x in tgt.elts):
+                vals = [tr.tr(v) for v in st.value.elts]        # simultaneous assignment: all right-hand sides first
+                text, sub = '', tr
+                for x, (term, ty) in zip(tgt.elts, vals):
+                    key = ast.unparse(x)
+                    text += f'let {self.lean_name(key)}\'new := {term};\n  '
+                for x, (term, ty) in zip(tgt.elts, vals):
+                    key = ast.unparse(x)
+                    text += f'let {self.lean_name(key)} := {self.lean_name(key)}\'new;\n  '
+                    sub = self.bind(sub, key, self.lean_name(key), ty)
+                body, tys = self.run(sub, rest, outs, in_loop)
+                return text + body, tys
+        if isinstance(st, ast.AugAssign) and isinstance(st.target, (ast.Name, ast.Attribute)):
+            key = ast.unparse(st.target)
+            term, ty = tr.tr(ast.BinOp(left=_as_load(st.target), op=st.op, right=st.value))
+            lean = self.lean_name(key)
+            body, tys = self.run(self.bind(tr, key, lean, ty), rest, outs, in_loop)
+            return f'let {lean} := {term};\n  {body}', tys
+        if isinstance(st, ast.Expr) and isinstance(st.value, ast.Call) and isinstance(st.value.func, ast.Attribute) \
+                and st.value.func.attr in ('append', 'extend') and len(st.value.args) == 1 and not st.value.keywords:
+            key = ast.unparse(st.value.func.value)
+            old = self.lookup(tr, key)
+            if old is None or not (isinstance(old[1], tuple) and old[1][0] == 'list'):
+                raise Untranslatable(f'{self.what}: `{key}` is not a list variable in ' + ast.unparse(st))
+            term, ty = tr.tr(st.value.args[0])
+            if st.value.func.attr == 'append':
+                if ty != old[1][1]:
+                    raise Untranslatable(f'{self.what}: {ast.unparse(st)} appends a value of kind {ty} to a list of {old[1][1]}')
+                new = f'({old[0]} ++ [{term}])'
+            else:
+                if not (isinstance(ty, tuple) and ty[0] in ('list', 'set') and ty[1] == old[1][1]):
+                    raise Untranslatable(f'{self.what}: {ast.unparse(st)} extends a list of {old[1][1]} by {ty}')
+                new = f'({old[0]} ++ {term})'
+            lean = self.lean_name(key)
+            body, tys = self.run(self.bind(tr, key, lean, old[1]), rest, outs, in_loop)
+            return f'let {lean} := {new};\n  {body}', tys
+        if isinstance(st, ast.If):
+            c = tr.as_bool(tr.tr(st.test))
+            if in_loop and not st.orelse and st.body and isinstance(st.body[-1], ast.Continue):
+                a, ta = self.run(tr, st.body[:-1], outs, in_loop)
+                b, tb = self.run(tr, rest, outs, in_loop)
+                if ta != tb:
+                    raise Untranslatable(f'{self.what}: the two ways through `if {ast.unparse(st.test)}: …; continue` leave values of different kinds')
+                return f'if {c} then\n  ({a})\n  else\n  ({b})', ta
+            mods = [k for k in self.assigned(st.body + st.orelse)
+                    if (self.lookup(tr, k) is not None or (k in self.assigned(st.body) and k in self.assigned(st.orelse)))
+                    and self.needed(k, None, rest, outs)]
+            if not mods:
+                raise Untranslatable(f'{self.what}: conditional without an effect on a known variable: if {ast.unparse(st.test)}')
+            a, ta = self.run(tr, st.body, mods, in_loop)
+            b, tb = self.run(tr, st.orelse, mods, in_loop)
+            if ta != tb:
+                raise Untranslatable(f'{self.what}: the branches of `if {ast.unparse(st.test)}` leave values of different kinds')
+            return self.rebind(tr, mods, ta, f'if {c} then ({a}) else ({b})', rest, outs, in_loop)
+        if isinstance(st, ast.For) and not st.orelse and isinstance(st.target, ast.Name):
+            xs, elty = tr.seq(tr.tr(st.iter))
+            mods = [k for k in self.assigned(st.body) if self.lookup(tr, k) is not None and self.needed(k, st.body, rest, outs)]
+            if not mods:
+                raise Untranslatable(f'{self.what}: loop without an effect on a known variable: for {ast.unparse(st.target)} in {ast.unparse(st.iter)}')
+            init, tys0 = self.final(tr, mods)
+            sub = tr.child()
+            sub.syms = dict(tr.syms)
+            text = ''
+            n = len(mods)
+            for k, key in enumerate(mods):
+                if n > 1:
+                    text += f'let {self.lean_name(key)} := {tuple_proj("st", k, n)};\n    '
+                sub = self.bind(sub, key, self.lean_name(key), tys0[k])
+            sub = self.bind(sub, st.target.id, lid(st.target.id), elty)
+            body, tys = self.run(sub, st.body, mods, True)
+            if tys != tys0:
+                raise Untranslatable(f'{self.what}: the loop over {ast.unparse(st.iter)} changes the kind of a variable')
+            acc = 'st' if n > 1 else self.lean_name(mods[0])
+            return self.rebind(tr, mods, tys, f'({xs}.foldl (fun {acc} {lid(st.target.id)} =>\n    {text}{body}) {init})', rest, outs, in_loop)
+        raise Untranslatable(f'{self.what}: statement not understood: ' + ast.unparse(st).splitlines()[0])
+
+    def rebind(self, tr, mods, tys, term, rest, outs, in_loop):
+        n = len(mods)
+        sub = tr
+        if n == 1:
+            lean = self.lean_name(mods[0])
+            body, t2 = self.run(self.bind(tr, mods[0], lean, tys[0]), rest, outs, in_loop)
+            return f'let {lean} := {term};\n  {body}', t2
+        text = f'let st\'{len(str(term)) % 97} := {term};\n  '
+        var = f"st'{len(str(term)) % 97}"
+        for k, key in enumerate(mods):
+            text += f'let {self.lean_name(key)} := {tuple_proj(var, k, n)};\n  '
+            sub = self.bind(sub, key, self.lean_name(key), tys[k])
+        body, t2 = self.run(sub, rest, outs, in_loop)
+        return text + body, t2
+
+
 # ----------------------------------------------------------------------------- fragments
 class Out:
     """collects the generated definitions. `baseline` (tools/fragment_baseline.json, captured from the unchanged
